@@ -204,7 +204,42 @@ func checkSzxTable(e *Env) map[int64]int64 {
 		})
 	}
 	if lit == nil {
-		e.R.Undecided(rule, "net/blockwise.szxToSize:table", "-", "szxToSize is no longer a map literal; rule needs an update")
+		// no table: the sizes are computed. Size() is evaluated abstractly on every exponent
+		f := e.fn(rule, "net/blockwise.SZX.Size")
+		if f == nil || len(f.Params) != 1 {
+			e.R.Undecided(rule, "net/blockwise.szxToSize:table", "-", "neither a size table nor a one-argument SZX.Size found")
+			return want
+		}
+		run := func(in *core.AVal) (string, *big.Int) {
+			it := core.NewInterp(e.P)
+			outs := it.Run(f, []*core.AVal{in}, nil)
+			var val *big.Int
+			if len(outs) == 0 {
+				return "no outcome", nil
+			}
+			for _, o := range outs {
+				if o.Abort || o.Panic || len(o.Ret) != 1 {
+					return core.SummarizeOutcomes([]core.Outcome{o}), nil
+				}
+				c, isC := o.Ret[0].IsConst()
+				if !isC || (val != nil && val.Cmp(c) != 0) {
+					return "result is not one constant: " + core.SummarizeOutcomes(outs), nil
+				}
+				val = c
+			}
+			return "", val
+		}
+		bad := ""
+		for k := int64(0); k <= 6; k++ {
+			if why, v := run(core.ConstAInt(big.NewInt(k), 8, false)); why != "" || v.Int64() != want[k] {
+				bad = fmt.Sprintf("Size(%d): %s %v, RFC 7959 says %d", k, why, v, want[k])
+			}
+		}
+		e.R.Check(bad == "", rule, "net/blockwise.SZX.Size:2^(szx+4)", e.fpos(f), "Size(k) = 2^(k+4) for k = 0..6 (evaluated on the code, no table)", "block size differs from RFC 7959 2^(SZX+4): "+bad)
+		why7, v7 := run(core.ConstAInt(big.NewInt(7), 8, false))
+		e.R.Check(why7 == "" && v7.Int64() == 1024, rule, "net/blockwise.SZX.Size:BERT", e.fpos(f), "Size(7) = 1024 (BERT unit)", fmt.Sprintf("BERT block unit is not 1024: %s %v", why7, v7))
+		whyO, vO := run(core.SymInt("szx", 8, false, big.NewInt(8), big.NewInt(255), 8))
+		e.R.Check(whyO == "" && vO.Int64() == -1, rule, "net/blockwise.SZX.Size:unknown-exponent", e.fpos(f), "any other exponent yields -1", fmt.Sprintf("an exponent above 7 has a size: %s %v", whyO, vO))
 		return want
 	}
 	okTable := true
@@ -404,6 +439,24 @@ func checkBufferSize(e *Env, table map[int64]int64) {
 		if !isM || m.Op != token.MUL {
 			continue
 		}
+		_ = m
+	}
+	for _, ret := range core.ReturnsOf(f) {
+		// max − max mod S: the same floor
+		d, isD := core.RetVal(ret, 0).(*ssa.BinOp)
+		if isD && d.Op == token.SUB {
+			if r, isR := d.Y.(*ssa.BinOp); isR && r.Op == token.REM && r.X == d.X && core.Unwrap(d.X) == ssa.Value(f.Params[1]) {
+				if _, isCall := core.Resolve(r.Y).(*ssa.Call); isCall {
+					if _, isBasic := f.Params[1].Type().Underlying().(*types.Basic); isBasic {
+						shape = true
+					}
+				}
+			}
+		}
+		m, isM := core.RetVal(ret, 0).(*ssa.BinOp)
+		if !isM || m.Op != token.MUL {
+			continue
+		}
 		for _, pair := range [][2]ssa.Value{{m.X, m.Y}, {m.Y, m.X}} {
 			q, isQ := pair[0].(*ssa.BinOp)
 			if !isQ || q.Op != token.QUO {
@@ -416,7 +469,7 @@ func checkBufferSize(e *Env, table map[int64]int64) {
 			}
 		}
 	}
-	e.R.Check(shape, rule, "net/blockwise.bufferSize:BERT-floor", e.fpos(f), "BERT result has the form (max / S) · S with one and the same S = szx.Size(): ⌊max/S⌋·S ≤ max", "BERT size is not ⌊max/S⌋·S over the maximum message size")
+	e.R.Check(shape, rule, "net/blockwise.bufferSize:BERT-floor", e.fpos(f), "BERT result has the form (max / S) · S (or max − max mod S) with one and the same S = szx.Size(): ⌊max/S⌋·S ≤ max", "BERT size is not ⌊max/S⌋·S over the maximum message size")
 }
 
 // sameCall: two values are calls to the same function with the same arguments (or the same value).
